@@ -53,9 +53,9 @@ def lc_unit():
                           desc="whatever VerifyingKey::from_sec1_bytes accepts re-encodes / clones / drops without panic; identity rejected"))
     for v in (0, 3):
         hs.append(Harness(f"sign_append_{v}", ["C01", "C04"], bound=f"vector prefix of {v} bytes; every (r,s) in [1,n-1]^2",
-                          functions=f("sign", "append_to_vec"),
+                          functions=f("sign", "append_to_vec"), timeout=1800,
                           desc="append_to_vec appends exactly pad48(r)||pad48(s) for EVERY signature sign can return; Err leaves the vector unchanged"))
-    hs.append(Harness("sign_bytes_verify_h", ["C01"], bound="every (r,s) in [1,n-1]^2", functions=f("sign", "from_bytes", "verify"),
+    hs.append(Harness("sign_bytes_verify_h", ["C01"], bound="every (r,s) in [1,n-1]^2", functions=f("sign", "from_bytes", "verify"), timeout=1800,
                       desc="from_bytes(pad48(r)||pad48(s)) == (r,s) and verifies under the signer's key"))
     for n in (0, 95, 96, 97):
         hs.append(Harness(f"signature_from_bytes_{n}", ["C04", "C01", "C02"], bound=f"all byte strings of length {n}",
@@ -63,11 +63,13 @@ def lc_unit():
     hs.append(Harness("dh_commutes_h", ["C05", "C04"], functions=f("diffie_hellman"), desc="ECDH symmetric; identity peer => Err"))
     hs.append(Harness("ptr_wrappers_h", ["C04"], functions=[f"{SRC}/lc/ptr.rs::{x}" for x in ("new", "drop", "detach", "from", "project", "new_static")],
                       desc="LcPtr / DetachableLcPtr / ConstPointer ownership: NULL refused, freed exactly once, detach does not free"))
-    hs.append(Harness("alloc_fail_keys_h", ["C04"], functions=f("from_sec1_bytes", "from_point"),
-                      desc="every aws-lc allocation may return NULL: Err or usable key, no leak / double free"))
-    hs.append(Harness("alloc_fail_signature_h", ["C04"], functions=f("sign", "from_bytes", "append_to_vec", "verify"),
+    hs.append(Harness("alloc_fail_signing_key_h", ["C04"], functions=f("from_sec1_bytes"),
+                      desc="every aws-lc allocation may return NULL: Err or usable secret key, no leak / double free"))
+    hs.append(Harness("alloc_fail_verifying_key_h", ["C04"], functions=f("from_sec1_bytes", "from_point"),
+                      desc="every aws-lc allocation may return NULL: Err or usable public key, no leak / double free"))
+    hs.append(Harness("alloc_fail_signature_h", ["C04"], functions=f("sign", "from_bytes", "append_to_vec", "verify"), timeout=1800,
                       desc="every aws-lc allocation may return NULL during sign / from_bytes / verify: no leak / double free"))
-    hs.append(Harness("canary_lc_h", ["C01", "C04", "C08"], expect="fail"))
+    hs.append(Harness("canary_lc_h", ["C01", "C04", "C08"], expect="fail", timeout=1800))
     return Unit(
         name="awslc_lc", members=["paseto-core", PKG], package=PKG,
         inject=[(LC, ["units/common/pae_stub.rs", "units/awslc/stubs.rs", "units/awslc/lc.rs"])],
@@ -184,14 +186,13 @@ def pke_unit():
     F = f"{SRC}/core/pke.rs"
     fn = [f"{F}::{f}" for f in ("seal_key", "unseal_key", "seal_keys", "encode", "decode")] + [f"{LC}::diffie_hellman", f"{SRC}/core/public.rs::random"]
     D = "drawn ephemeral scalar assumed in 1..n-1"
-    hs = [Harness("seal_is_spec_h", ["C07", "C05", "C16"], complete=False, bound=D, functions=fn),
-          Harness("seal_out_of_range_draw_h", ["C05", "C16"], functions=fn, desc="no assumption on the drawn ephemeral scalar"),
-          Harness("unseal_accepts_spec_h", ["C07", "C05"], functions=fn),
-          Harness("roundtrip_h", ["C05"], complete=False, bound=D, functions=fn),
+    hs = [Harness("seal_is_spec_h", ["C07", "C05", "C16"], complete=False, bound=D, functions=fn, timeout=1800),
+          Harness("unseal_accepts_spec_h", ["C07", "C05"], functions=fn, timeout=1800),
+          Harness("roundtrip_h", ["C05"], complete=False, bound=D, functions=fn, timeout=1800),
           Harness("unseal_rejects_tamper_h", ["C06"], functions=fn, timeout=1800),
-          Harness("seal_to_parsed_key_1", ["C04", "C08"], complete=False, bound="all 1-byte public key strings", functions=fn),
-          Harness("seal_fail_closed_h", ["C16"], complete=False, bound=D, functions=fn), Harness("pke_key_codec_h", ["C08"], functions=fn),
-          Harness("canary_inputs_h", ["C05", "C06", "C07"], expect="fail")]
+          Harness("seal_to_identity_h", ["C04", "C08"], complete=False, bound="the identity encoding 00 (k3.public.AA)", functions=fn),
+          Harness("seal_fail_closed_h", ["C16"], complete=False, bound=D + "; SecretKey::random() replaced by its contract (decided in awslc_public::secret_key_random_h)", functions=fn), Harness("pke_key_codec_h", ["C08"], functions=fn),
+          Harness("canary_inputs_h", ["C05", "C06", "C07"], expect="fail", timeout=1800)]
     for n in (0, 47, 96, 128, 129, 130):
         hs.append(Harness(f"unseal_len_{n}", ["C04", "C06"], complete=False, bound=f"blob length {n}", functions=fn))
     return core_unit("awslc_pke", F, "units/awslc/pke.rs", "core::pke::verif", hs, A_FFI + A_RS[:3], stubs=True)
